@@ -81,9 +81,11 @@ def check(run: Run):
         run.notes.append("drift: detailed tinylfu model rejected %d run(s)" % len(rej2))
     else:
         run.notes.append("detailed TinyLFU model (admission window + SLRU, sketch choice nondeterministic) accepted all %d tinylfu runs" % len(keep))
+    # 4. code -> spec on the repository's own tests: every cache they build, validated against the same trace specification
+    repo_tests_part(run, ["github.com/godaddy/asherah/go/appencryption/pkg/cache", "github.com/godaddy/asherah/go/appencryption"])
     return run.finish(
         "model_checking",
-        "TLC explores Cache.tla for caps 1..%d x {lru,lfu,slru} x expiry on/off up to %d calls over 3 keys x 2 values; every transition is replayed on the real cache (sync+async) and compared (result, callbacks, size); plus seeded long runs of the real cache for all four policies at capacities on both sides of the tinylfu window / sync thresholds, validated by TLC. non-trivial = transition that evicts/expires/hits/deletes, or run with >= 1 callback" % (4 if q else 6, 5 if q else 7),
+        "TLC explores Cache.tla for caps 1..%d x {lru,lfu,slru} x expiry on/off up to %d calls over 3 keys x 2 values; every transition is replayed on the real cache (sync+async) and compared (result, callbacks, size); plus seeded long runs of the real cache for all four policies at capacities on both sides of the tinylfu window / sync thresholds, validated by TLC; plus every cache built by the repository's own tests (pkg/cache and the SDK package) recorded through the tracing overlay and validated by TLC. non-trivial = transition that evicts/expires/hits/deletes, or run with >= 1 callback" % (4 if q else 6, 5 if q else 7),
         ASSUME,
         explanation="spec->code: %d transitions replayed x2 modes; code->spec: %d recorded runs / %d events accepted by TLC" % (res["evaluations"], run.traces_validated, run.events_validated))
 
@@ -110,6 +112,65 @@ def replay(run: Run, finding):
     res = run.drv(["cache-replay", "-in", p])
     print(json.dumps(res["findings"], indent=1)[:4000])
     return 1 if res["findings"] else 0
+
+
+def repo_tests_part(run, packages):
+    """Trace validation of the repository's OWN tests: the listed test packages run with the public operations of pkg/cache wrapped
+    by the overlay (cmd/vinstr -tracecache; nothing under /repo is changed); every cache any test builds is one recorded run, and
+    TLC checks each against CacheTrace.tla - every invariant at every step, whatever the test itself asserts."""
+    import subprocess, glob, collections
+    from vlib import HARNESS, GOENV, REPO
+    run.vdrv()     # builds vinstr into the scratch dir
+    ovd = os.path.join(run.work, "overlay-tracecache")
+    p = subprocess.run([os.path.join(run.work, "vinstr"), "-repo", REPO, "-out", ovd, "-tracecache"], capture_output=True, text=True)
+    if p.returncode != 0:
+        raise Infra("vinstr -tracecache failed on the current /repo tree:\n" + p.stdout + p.stderr)
+    base = os.path.join(run.work, "repo-tests-trace")
+    env = dict(GOENV, VERIF_CACHE_TRACE=base)
+    try:
+        p = subprocess.run(["go", "test", "-count=1", "-vet=off", "-overlay", p.stdout.strip()] + packages, cwd=HARNESS, env=env,
+                           capture_output=True, text=True, timeout=1500)
+    except subprocess.TimeoutExpired:
+        raise Infra("the repository's tests did not finish under the tracing overlay")
+    failed = [l for l in p.stdout.splitlines() if l.startswith(("FAIL", "--- FAIL", "panic:"))]
+    if p.returncode != 0 and not any(l.startswith("--- FAIL") for l in failed):
+        raise Infra("the repository's tests could not be built/run under the tracing overlay:\n" + (p.stdout + p.stderr)[-3000:])
+    if failed:
+        run.notes.append("repository tests failing under the tracing overlay (their own verdict, not this check's): %s" % failed[:5])
+    # one run per cache built; events of one cache are contiguous after grouping (tests may hold several caches at a time)
+    runs = collections.OrderedDict()
+    for f in sorted(glob.glob(base + ".*")):
+        for line in open(f):
+            e = json.loads(line)
+            runs.setdefault((f, e["run"]), []).append(e)
+        os.remove(f)
+    if not runs:
+        raise Infra("the repository's tests built no cache under the tracing overlay")
+    keys, nvals, n, aborted = set(), 3, 0, 0
+    trace = os.path.join(run.work, "trace.ndjson")
+    with open(trace, "w") as out:
+        for evs in runs.values():
+            if any(e["op"] == "Abort" for e in evs):
+                aborted += 1
+                continue
+            n += 1
+            for e in evs:
+                e["run"] = n
+                if e["k"]:
+                    keys.add(e["k"])
+                nvals = max([nvals, e["v"] if e["op"] == "Set" else 0, e["rv"] if e["op"] == "Get" else 0] + [c[1] for c in e["cbs"]])
+                out.write(json.dumps(e) + "\n")
+    consts = {"Keys": tla_set(sorted(keys)), "Vals": "{" + ",".join(str(i) for i in range(1, nvals + 1)) + "}", "MaxOps": 0, "MaxT": 0, "Configs": "{}", "TlfuAs": '"any"'}
+    tv = run.traces_validated
+    rej = validate_traces(run, "CacheTrace.tla", consts, ["SizeBound", "Structure", "SlruShape", "ClosedEmpty"], trace, "repo-tests", max_reject=4)
+    for x in rej:
+        rs = x["reset"]
+        run.findings.append({"kind": "repo-test-trace-rejected policy=%s cap=%d sync=%s op=%s" % (rs["policy"], rs["cap"], rs["sync"], x["event"]["op"]),
+                             "detail": "a cache built by the repository's own tests behaved in a way Cache.tla does not allow: %s: line %d of the run, event %s" % (
+                                 x["why"], x["line_in_run"], json.dumps(x["event"])),
+                             "case": {"reset": rs, "seed": run.seed, "trace": x["trace"]}})
+    run.notes.append("repository tests under the tracing overlay (%s): %d caches recorded, %d validated by TLC, %d cut out (expiring cache on the wall clock)" % (
+        " ".join(x.rsplit("/", 2)[-1] if x.endswith("...") else x.rsplit("/", 1)[-1] for x in packages), len(runs), run.traces_validated - tv, aborted))
 
 
 def drop_aborted(path):
